@@ -22,7 +22,7 @@ fn find_disallowed_space(label: &str) -> Option<usize> {
     let mut last_c: Option<char> = None;
     let mut offset = 0;
 
-    for (index, c) in label.chars().enumerate() {
+    for (index, c) in label.char_indices() {
         offset = index;
         if !common::is_space_separator(c) {
             last_c = Some(c);
